@@ -59,6 +59,7 @@ var fullPool = []poolEntry{
 	{"#(1 2 3)", "other", "(vector 1 2 3)", "simple vector"},
 	{"#()", "other", "(vector)", "empty vector"},
 	{"fpv", "other", "(make-array 3 :fill-pointer 1 :adjustable t)", "adjustable vector with a fill pointer"},
+	{"fpover", "other", "(make-array 3 :fill-pointer 3 :adjustable t)", "adjustable vector whose fill pointer is at the end"},
 	{"a22", "other", "(make-array (list 2 2) :initial-element 0)", "2-D array"},
 	{"oct", "other", "(make-octets 3 7)", "octets"},
 	{"ht", "other", "(let ((h (make-hash-table))) (setf (gethash 'a h) 1) h)", "hash table with one entry"},
